@@ -2,7 +2,7 @@
 // over a map-typed expression (set.Set is a map type) and every call of an order-exposing method
 // of set.Set (Slice) in the generator packages of /repo, as file / function / ranged expression,
 // into lean/Generated/MapRanges.lean.  It only extracts; Properties/C14.lean has to match every
-// listed site to an order-independence theorem or to a stated reason (obligation
+// listed site (with the fingerprint of what its loop body does) to an order-independence theorem or to a stated reason (obligation
 // `every_map_range_site_is_matched`), so a NEW site is an open obligation.
 package main
 
@@ -10,6 +10,7 @@ import (
 	"flag"
 	"fmt"
 	"go/ast"
+	"go/token"
 	"go/types"
 	"os"
 	"path/filepath"
@@ -29,7 +30,73 @@ var generatorPkgs = []string{
 	"github.com/drshriveer/gtools/gsort/cmd/gsort",
 }
 
-type site struct{ file, fn, expr string }
+type site struct {
+	file, fn, expr string
+	effects        []string
+}
+
+// norm prints an expression with every index replaced by `·` (which element is touched does not
+// matter for the kind of effect).
+func norm(e ast.Expr) string {
+	switch x := e.(type) {
+	case *ast.Ident:
+		return x.Name
+	case *ast.SelectorExpr:
+		return norm(x.X) + "." + x.Sel.Name
+	case *ast.IndexExpr:
+		return norm(x.X) + "[·]"
+	case *ast.StarExpr:
+		return "*" + norm(x.X)
+	case *ast.ParenExpr:
+		return norm(x.X)
+	case *ast.CallExpr:
+		return norm(x.Fun) + "()"
+	}
+	return types.ExprString(e)
+}
+
+// fingerprint lists, in source order, what a loop body DOES: assignments (by target), appends and
+// deletes (by container), calls (by callee), control transfers and nested loops/conditions.
+// Function literals inside the body are included.
+func fingerprint(body *ast.BlockStmt) []string {
+	var fx []string
+	ast.Inspect(body, func(n ast.Node) bool {
+		switch x := n.(type) {
+		case *ast.AssignStmt:
+			for _, l := range x.Lhs {
+				if x.Tok == token.DEFINE {
+					fx = append(fx, "define:"+norm(l))
+				} else {
+					fx = append(fx, "assign"+x.Tok.String()+":"+norm(l))
+				}
+			}
+		case *ast.IncDecStmt:
+			fx = append(fx, "assign"+x.Tok.String()+":"+norm(x.X))
+		case *ast.CallExpr:
+			if id, ok := x.Fun.(*ast.Ident); ok && (id.Name == "append" || id.Name == "delete") && len(x.Args) > 0 {
+				fx = append(fx, id.Name+":"+norm(x.Args[0]))
+			} else {
+				fx = append(fx, "call:"+norm(x.Fun))
+			}
+		case *ast.ReturnStmt:
+			fx = append(fx, fmt.Sprintf("return/%d", len(x.Results)))
+		case *ast.BranchStmt:
+			fx = append(fx, x.Tok.String())
+		case *ast.IfStmt:
+			fx = append(fx, "if")
+		case *ast.RangeStmt:
+			fx = append(fx, "range:"+norm(x.X))
+		case *ast.ForStmt:
+			fx = append(fx, "for")
+		case *ast.GoStmt:
+			fx = append(fx, "go")
+		case *ast.SendStmt:
+			fx = append(fx, "send:"+norm(x.Chan))
+		}
+		return true
+	})
+	return fx
+}
 
 func leanStr(s string) string {
 	s = strings.ReplaceAll(s, `\`, `\\`)
@@ -94,7 +161,7 @@ func main() {
 					case *ast.RangeStmt:
 						if t := p.TypesInfo.TypeOf(x.X); t != nil {
 							if _, ok := t.Underlying().(*types.Map); ok {
-								sites = append(sites, site{rel, fn, "range " + types.ExprString(x.X)})
+								sites = append(sites, site{rel, fn, "range " + types.ExprString(x.X), fingerprint(x.Body)})
 							}
 						}
 					case *ast.CallExpr:
@@ -102,7 +169,7 @@ func main() {
 							if t := p.TypesInfo.TypeOf(s.X); t != nil {
 								if nt, ok := t.(*types.Named); ok && nt.Obj().Pkg() != nil &&
 									nt.Obj().Pkg().Path() == "github.com/drshriveer/gtools/set" && s.Sel.Name == "Slice" {
-									sites = append(sites, site{rel, fn, "call " + types.ExprString(x.Fun)})
+									sites = append(sites, site{rel, fn, "call " + types.ExprString(x.Fun), nil})
 								}
 							}
 						}
@@ -120,18 +187,25 @@ func main() {
 		if a.fn != b.fn {
 			return a.fn < b.fn
 		}
-		return a.expr < b.expr
+		if a.expr != b.expr {
+			return a.expr < b.expr
+		}
+		return strings.Join(a.effects, ";") < strings.Join(b.effects, ";")
 	})
 	var b strings.Builder
 	b.WriteString("import Model.GenOrder\n/-! REGENERATED on every run by harness/cmd/extract-mapranges (go/types) from the generator packages\n")
 	b.WriteString(strings.Join(generatorPkgs, ", "))
-	b.WriteString(".\nEvery `range` over a map-typed expression and every set.Set.Slice call, as ⟨file, function, expression⟩.\nA site occurring twice in one function is listed twice. Do not edit. -/\nnamespace Generated.MapRanges\nopen GenOrder\n\ndef sites : List Site := [\n")
+	b.WriteString(".\nEvery `range` over a map-typed expression and every set.Set.Slice call, as ⟨file, function, expression, effects⟩;\neffects = what the loop body does, in source order (assignment targets, append/delete containers, callees,\ncontrol transfers; indices normalised to ·).\nA site occurring twice in one function is listed twice. Do not edit. -/\nnamespace Generated.MapRanges\nopen GenOrder\n\ndef sites : List Site := [\n")
 	for i, s := range sites {
 		sep := ","
 		if i == len(sites)-1 {
 			sep = ""
 		}
-		fmt.Fprintf(&b, "  ⟨%s, %s, %s⟩%s\n", leanStr(s.file), leanStr(s.fn), leanStr(s.expr), sep)
+		fx := make([]string, len(s.effects))
+		for k, e := range s.effects {
+			fx[k] = leanStr(e)
+		}
+		fmt.Fprintf(&b, "  ⟨%s, %s, %s,\n    [%s]⟩%s\n", leanStr(s.file), leanStr(s.fn), leanStr(s.expr), strings.Join(fx, ", "), sep)
 	}
 	b.WriteString("]\n\nend Generated.MapRanges\n")
 	old, _ := os.ReadFile(*out)
